@@ -40,10 +40,20 @@ class IOController:
         self.active = False
         self.fired = None
         self.handles = []
+        self.snapshot = {}
+        self.watch = list(getattr(self, "watch", []))
 
     def _fire(self, name, phase):
         self.fired = (self.k, name, phase)
         self.active = False
+        # the on-disk state at this very instant: exception handlers and finally blocks that run
+        # while the "dead" process unwinds must not be able to repair the file afterwards
+        self.snapshot = {}
+        for p in self.watch:
+            try:
+                self.snapshot[p] = read_bytes(p)
+            except OSError:
+                self.snapshot[p] = None
         if self.mode == "crash":
             raise Crash(f"crash {phase} boundary {self.k}: {name}")
         raise OSError(self.errno, f"injected {_os.strerror(self.errno)} {phase} {name} (boundary {self.k})")
@@ -253,14 +263,20 @@ def read_bytes(path):
         return f.read()
 
 
-def decode_file(path, encoding=None, csv_kwargs=None):
-    """Decode the database file with an independent reader.
-    Returns (points, None) or (None, reason) when the file cannot be decoded."""
+def decode_file(path, encoding=None, csv_kwargs=None, data=None):
+    """Decode the database file (or the bytes `data` snapshotted from it) with an independent
+    reader.  Returns (points, None) or (None, reason) when it cannot be decoded."""
+    import io
+
     from tinyflux import Point
 
     try:
-        with builtins.open(path, "r", encoding=encoding, newline="") as f:
+        if data is not None:
+            f = io.TextIOWrapper(io.BytesIO(data), encoding=encoding, newline="")
             rows = list(csv.reader(f, **(csv_kwargs or {})))
+        else:
+            with builtins.open(path, "r", encoding=encoding, newline="") as f:
+                rows = list(csv.reader(f, **(csv_kwargs or {})))
     except Exception as e:
         return None, f"unreadable: {type(e).__name__}: {e}"
     pts = []
